@@ -57,5 +57,5 @@ Definition same_rows (names : list string) (a b : list (string * list string)) :
 
 (** the rows each property's transition-system statements rest on *)
 Definition c01_rows : list string := ["matcher_thread"; "matcher_kill"; "matcher_into_items"; "reader_thread"; "reader_is_done"; "heart_beat"; "query_change"; "rotate_mode"; "cmd_change"; "restart_matcher"; "event_loop_heartbeat"; "pool_take"; "pool_append"; "pool_reset"; "pool_clear"; "pool_num_not_taken"].
-Definition c14_rows : list string := ["decide"; "heart_beat"; "event_loop_heartbeat"; "matcher_thread"; "matcher_into_items"; "reader_thread"; "reader_is_done"; "restart_matcher"].
+Definition c14_rows : list string := ["decide"; "heart_beat"; "event_loop_heartbeat"; "matcher_thread"; "matcher_kill"; "matcher_into_items"; "reader_thread"; "reader_is_done"; "restart_matcher"; "query_change"; "rotate_mode"; "cmd_change"; "pool_take"; "pool_reset"].
 Definition c15_rows : list string := ["pool_take"; "pool_append"; "pool_reset"; "pool_clear"; "pool_num_not_taken"; "matcher_thread"; "query_change"; "rotate_mode"; "cmd_change"; "spin_lock"; "spin_unlock"].
